@@ -4,6 +4,8 @@
    the case file, conversion nat/N <-> int, printing.  Every decision (probe sequence, slot chosen,
    when to resize, what a lookup returns, hash value) is taken by the extracted functions.
 
+   The same runner serves harness/hash/tabdrive.c (string table S s q T, function table F f g K).
+
    usage: run <casefile> *)
 open Hashmodel
 
@@ -48,6 +50,25 @@ let dump_cache buf (c : (cname, n) tab) =
   Buffer.add_string buf (Printf.sprintf " | %d %d |" (int_of_nat c.t_size) (int_of_nat c.t_count));
   dump buf c.t_entries
 
+let dump_strtab buf (t : (cname, nat) tab) =
+  Buffer.add_string buf (Printf.sprintf " | %d %d |" (int_of_nat t.t_size) (int_of_nat t.t_count));
+  List.iteri
+    (fun i s ->
+      match s with
+      | None -> ()
+      | Some (nm, o) -> Buffer.add_string buf (Printf.sprintf " %d:%s:%d" i (hex nm) (int_of_nat o)))
+    t.t_entries
+
+let dump_functab buf (t : (cname, fpayload) tab) =
+  Buffer.add_string buf (Printf.sprintf " | %d %d |" (int_of_nat t.t_size) (int_of_nat t.t_count));
+  List.iteri
+    (fun i s ->
+      match s with
+      | None -> ()
+      | Some (nm, (k, (e, pc))) ->
+          Buffer.add_string buf (Printf.sprintf " %d:%s:%d:%d:%d" i (hex nm) (int_of_n k) (int_of_n e) (int_of_n pc)))
+    t.t_entries
+
 let host_name = unhex "686f7374"
 
 type 'a st = Live of 'a | Dead of string | Absent
@@ -58,6 +79,9 @@ let () =
   let ic = open_in Sys.argv.(1) in
   let cache : (cname, n) tab st ref = ref Absent in
   let raw : ((cname, n) entries * int) st ref = ref Absent in
+  let strt : (cname, nat) tab st ref = ref Absent in
+  let funt : (cname, fpayload) tab st ref = ref Absent in
+  let nfunc = ref 0 in
   let buf = Buffer.create 65536 in
   (try
      while true do
@@ -168,6 +192,66 @@ let () =
                   | AddDivZero -> raw := Dead "DIVZERO"; Buffer.add_string buf "r DIVZERO"
                   | _ -> raw := Dead "FUEL"; Buffer.add_string buf "r FUEL")
              | _ -> Buffer.add_string buf "? r")
+        (* ---- string table (StrTabModel) ---- *)
+        | [ "S"; size ] ->
+            let t = str_new (nat_of_int (int_of_string size)) in
+            strt := Live t; Buffer.add_string buf "S"; dump_strtab buf t
+        | [ "s"; nm ] ->
+            (match !strt with
+             | Live t ->
+                 (match str_add t (unhex nm) with
+                  | Ok (t', order) ->
+                      strt := Live t'; Buffer.add_string buf (Printf.sprintf "s %d" (int_of_nat order)); dump_strtab buf t'
+                  | r -> strt := Dead (res_name r); Buffer.add_string buf ("s " ^ res_name r))
+             | _ -> Buffer.add_string buf "? s")
+        | [ "q"; nm ] ->
+            (match !strt with
+             | Live t ->
+                 (match str_lookup t (unhex nm) with
+                  | Ok order -> Buffer.add_string buf (Printf.sprintf "q %d" (int_of_nat order)); dump_strtab buf t
+                  | r -> Buffer.add_string buf ("q " ^ res_name r))
+             | _ -> Buffer.add_string buf "? q")
+        | [ "T" ] ->
+            (match !strt with
+             | Live t ->
+                 (match str_to_array t with
+                  | Some arr ->
+                      Buffer.add_string buf (Printf.sprintf "T %d" (List.length arr));
+                      List.iter (function None -> Buffer.add_string buf " ~" | Some s -> Buffer.add_string buf (" " ^ hex s)) arr
+                  | None -> Buffer.add_string buf "T OUT-OF-BOUNDS-WRITE");
+                 strt := Absent
+             | _ -> Buffer.add_string buf "? T")
+        (* ---- function table (FuncTabModel) ---- *)
+        | [ "F"; size ] ->
+            let t = ft_new (nat_of_int (int_of_string size)) in
+            funt := Live t; nfunc := 0; Buffer.add_string buf "F"; dump_functab buf t
+        | [ "f"; nm; e; pc ] ->
+            (match !funt with
+             | Live t ->
+                 let k = !nfunc in
+                 incr nfunc;
+                 (match ft_add t (unhex nm) (n_of_int k, (n_of_int (int_of_string e), n_of_int (int_of_string pc))) with
+                  | Ok t' -> funt := Live t'; Buffer.add_string buf "f"; dump_functab buf t'
+                  | r -> funt := Dead (res_name r); Buffer.add_string buf ("f " ^ res_name r))
+             | _ -> Buffer.add_string buf "? f")
+        | [ "g"; nm ] ->
+            (match !funt with
+             | Live t ->
+                 (match ft_lookup t (unhex nm) with
+                  | Hit i ->
+                      (match slot_at t.t_entries i with
+                       | Some (_, (k, _)) -> Buffer.add_string buf (Printf.sprintf "g %d:%d" (int_of_nat i) (int_of_n k))
+                       | None -> Buffer.add_string buf "g hit-on-free-slot")
+                  | Miss | MissGiveUp -> Buffer.add_string buf "g -"
+                  | LDivZero -> Buffer.add_string buf "g DIVZERO"
+                  | LOutOfFuel -> Buffer.add_string buf "g FUEL");
+                 dump_functab buf t
+             | _ -> Buffer.add_string buf "? g")
+        | [ "K" ] ->
+            (* functab_close rewrites payload fields of occupied slots only: keys and positions unchanged *)
+            (match !funt with
+             | Live t -> Buffer.add_string buf "K"; dump_functab buf t
+             | _ -> Buffer.add_string buf "? K")
         | [ "H"; nm ] -> Buffer.add_string buf (Printf.sprintf "H %d" (int_of_n (hash_string (unhex nm))))
         | _ -> Buffer.add_string buf ("? " ^ (if line = "" then "" else String.make 1 line.[0])));
        print_string (Buffer.contents buf);
